@@ -179,6 +179,10 @@ func execute(plan *Plan, opts execOpts) *RunResult {
 	}
 	res.Viol = append(res.Viol, s.viol...)
 	res.Viol = append(res.Viol, checkShared("simulated run")...)
+	if len(plan.Shared) > 0 {
+		res.Stats.Extra["runs_with_shared_operands"]++
+		res.Stats.Extra["shared_operand_fingerprint_checks"] += 2 * len(plan.Shared)
+	}
 	var sb strings.Builder
 	for _, t := range s.tasks {
 		res.Viol = append(res.Viol, t.env.viol...)
